@@ -665,12 +665,14 @@ def _check_type_splits(rep: Report, rid: str, fi: FunctionInfo, typevar: str, sc
             continue
         n += 1
         site = fi.module.site(c)
-        if c.func.attr != "split" or not c.args:
+        if not c.args:
             raise Unsupported(f"{fi.fq}: domain:objtype is taken apart with {short(c, 40)}")
         sep = _cstr(c.args[0])
         ms = arg_or_kw(c, 1, "maxsplit")
         k = f"{fi.fq}|{typevar}.split|first ':' only"
-        if sep == ":" and ms is not None and _const(ms) == 1:
+        if c.func.attr in ("rsplit", "rpartition"):
+            rep.violation(rid, k, site, f"`{short(c, 40)}` cuts domain:objtype at the LAST ':'; Sphinx cuts at the first (`split(':', 1)`): for an object type that itself contains ':' (rst:directive:option) the domain becomes 'rst:directive' instead of 'rst'")
+        elif sep == ":" and ((c.func.attr == "split" and ms is not None and _const(ms) == 1) or (c.func.attr == "partition" and len(c.args) == 1)):
             rep.ok(rid, k, site)
         else:
             rep.violation(rid, k, site, f"`{short(c, 40)}`: Sphinx keys are split at the first ':' only (`split(':', 1)`); an object type that itself contains ':' (rst:directive:option) no longer unpacks into (domain, objtype)")
@@ -679,42 +681,75 @@ def _check_type_splits(rep: Report, rid: str, fi: FunctionInfo, typevar: str, sc
         k = f"{fi.fq}|{typevar}.split|dominated by the ':' test"
         if ok:
             rep.ok(rid, k, site)
-        elif _caught_and_skipped(fi, st) and isinstance(parent(c), ast.Assign) and isinstance(parent(c).targets[0], ast.Tuple) and len(parent(c).targets[0].elts) == 2:
+        elif c.func.attr in ("split", "rsplit") and _caught_and_skipped(fi, st) and isinstance(parent(c), ast.Assign) and isinstance(parent(c).targets[0], ast.Tuple) and len(parent(c).targets[0].elts) == 2:
             rep.ok(rid, k, site, "no ':' -> the two-name unpacking raises ValueError, which is caught and the entry skipped")
         else:
             rep.violation(rid, k, site, f"`{short(c, 40)}` is not dominated by the `{sep!r} in {typevar}` test: a key/type without ':' raises ValueError instead of being skipped (Sphinx skips it)")
     return n
 
 
-def _entry_store_via(corpus: Corpus, fi: FunctionInfo, st):
-    """``_entry_store(st)``, or - when ``st`` calls a private helper whose body contains exactly one entry
-    store - that store with the helper's parameters replaced by the call's arguments."""
-    es = _entry_store(st)
-    if es is not None:
-        return es
+def _helper_store(corpus: Corpus, fi: FunctionInfo, st):
+    """When ``st`` calls a private helper that performs the entry store: (keys, item, mode, guards) with the
+    helper's parameters (and its local aliases of the table) replaced by the call's arguments. ``guards`` are
+    the (test, polarity) facts that dominate the store inside the helper (``if <test>: return`` clauses)."""
     if not (isinstance(st, ast.Expr) and isinstance(st.value, ast.Call)):
         return None
     t = _callee(corpus, fi, st.value)
     if t is None or t.is_lambda:
         return None
-    inner = [n for n in t.local_nodes() if isinstance(n, ast.stmt) and _entry_store(n) is not None]
-    body = [n for n in t.node.body if not (isinstance(n, ast.Expr) and isinstance(n.value, ast.Constant))]
-    if len(inner) != 1:
-        return None
-    # the helper must be straight-line up to the store (container-creating setdefault statements allowed)
-    for n in body:
-        if n is inner[0]:
-            continue
-        if not (isinstance(n, ast.Expr) and isinstance(n.value, ast.Call) and isinstance(n.value.func, ast.Attribute) and n.value.func.attr == "setdefault"):
-            return None
     mapping = {}
     for p in t.params:
         a = _param_arg(t, st.value, p)
         if a is None:
             return None
         mapping[p] = a
-    keys, item, mode = _entry_store(inner[0])
-    return [_clone(k, mapping) for k in keys], _clone(item, mapping), mode
+    # local aliases of (parts of) the table: objects = invdata["objects"].setdefault(d, {}).setdefault(o, {})
+    body = [n for n in t.node.body if not (isinstance(n, ast.Expr) and isinstance(n.value, ast.Constant))]
+    alias = dict(mapping)
+    stores = []
+    for n in t.local_nodes():
+        if not isinstance(n, ast.stmt) or isinstance(n, (ast.If, ast.Return, ast.Pass)):
+            continue
+        if isinstance(n, ast.Assign) and len(n.targets) == 1 and isinstance(n.targets[0], ast.Name) and n.targets[0].id not in t.params:
+            base, keys = _access_chain(n.value)
+            if keys and isinstance(base, ast.Name) and base.id in alias and not any(isinstance(x, ast.Name) and x.id == n.targets[0].id for x in ast.walk(n.value)):
+                alias[n.targets[0].id] = _clone(n.value, alias)
+                continue
+            return None
+        if isinstance(n, ast.Expr) and isinstance(n.value, ast.Call) and isinstance(n.value.func, ast.Attribute) and n.value.func.attr == "setdefault" and len(n.value.args) == 2 and isinstance(n.value.args[1], ast.Dict) and not n.value.args[1].keys:
+            continue  # creates a nested dictionary
+        if isinstance(n, ast.Expr) and isinstance(n.value, ast.Constant):
+            continue
+        stores.append(n)
+    if len(stores) != 1:
+        return None
+    inner = stores[0]
+    # the store as seen from the caller
+    view = _clone(inner, alias)
+    es = _entry_store(view)
+    if es is None:
+        return None
+    for r in t.local_nodes():
+        if isinstance(r, ast.Return) and r.value is not None and not _is_none(r.value):
+            return None
+    guards = [(_clone(g, alias), pol) for g, pol in get_cfg(t).guards(inner)]
+    return es[0], es[1], es[2], guards
+
+
+def _entry_store_via(corpus: Corpus, fi: FunctionInfo, st):
+    """``_entry_store(st)``, or the store performed by a private helper called in ``st`` (see _helper_store)."""
+    es = _entry_store(st)
+    if es is not None:
+        return es
+    hs = _helper_store(corpus, fi, st)
+    return hs[:3] if hs is not None else None
+
+
+def _helper_guards(corpus: Corpus, fi: FunctionInfo, st) -> list:
+    if _entry_store(st) is not None:
+        return []
+    hs = _helper_store(corpus, fi, st)
+    return hs[3] if hs is not None else []
 
 
 def _text_problems(samples: list, got: list) -> list[str]:
@@ -728,33 +763,73 @@ def _text_problems(samples: list, got: list) -> list[str]:
     return out
 
 
-def _dup_truth(t, typevar: str, E: bool, P: bool) -> bool:
-    """Truth of a test built from ``type == "py:module"`` (E) and membership tests on the objects table (P)."""
+def _dup_truth(t, tv: dict, D: bool, O: bool, P: bool) -> bool:
+    """Truth of a test built from ``type == "py:module"`` (D and O), ``domain == "py"`` (D), ``objtype ==
+    "module"`` (O) and membership tests on the objects table (P). ``tv`` names the type/domain/objtype variables."""
     if isinstance(t, ast.UnaryOp) and isinstance(t.op, ast.Not):
-        return not _dup_truth(t.operand, typevar, E, P)
+        return not _dup_truth(t.operand, tv, D, O, P)
     if isinstance(t, ast.BoolOp):
-        vals = [_dup_truth(v, typevar, E, P) for v in t.values]
+        vals = [_dup_truth(v, tv, D, O, P) for v in t.values]
         return all(vals) if isinstance(t.op, ast.And) else any(vals)
     for a in _atom(t, True):
-        if a[0] == "eq" and "py:module" in (_cstr(a[1]), _cstr(a[2])) and (_is_name(a[1], typevar) or _is_name(a[2], typevar)):
-            return E == a[3]
+        if a[0] == "eq":
+            for var, c in ((a[1], _cstr(a[2])), (a[2], _cstr(a[1]))):
+                if c == "py:module" and _is_name(var, tv["type"]):
+                    return (D and O) == a[3]
+                if c == "py" and tv.get("domain") and _is_name(var, tv["domain"]):
+                    return D == a[3]
+                if c == "module" and tv.get("objtype") and _is_name(var, tv["objtype"]):
+                    return O == a[3]
         if a[0] == "in" and "objects" in unparse(a[2]):
             return P == a[3]
     raise Unsupported(f"part of the py:module test not understood: {short(t, 50)}")
+
+
+def _is_pydup_test(t, tv: dict) -> bool:
+    """Does the test speak about py:module (as one constant, or as domain == "py" / objtype == "module")?"""
+    for n in ast.walk(t):
+        if isinstance(n, (ast.Constant, ast.Name)) and _cstr(n) == "py:module":
+            return True
+        if isinstance(n, ast.Compare):
+            for a in _atom(n, True):
+                if a[0] == "eq":
+                    for var, c in ((a[1], _cstr(a[2])), (a[2], _cstr(a[1]))):
+                        if (c == "py" and tv.get("domain") and _is_name(var, tv["domain"])) or (c == "module" and tv.get("objtype") and _is_name(var, tv["objtype"])):
+                            return True
+    return False
+
+
+def _type_vars(fi: FunctionInfo, typevar: str) -> dict:
+    """{"type": ..., "domain": ..., "objtype": ...}: the names the split of domain:objtype is unpacked into."""
+    tv = {"type": typevar}
+    for st in fi.local_nodes():
+        if isinstance(st, ast.Assign) and isinstance(st.targets[0], ast.Tuple) and isinstance(st.value, ast.Call) and isinstance(st.value.func, ast.Attribute) and _is_name(st.value.func.value, typevar):
+            el = st.targets[0].elts
+            if st.value.func.attr in ("split", "rsplit") and len(el) == 2 and all(isinstance(e, ast.Name) for e in el):
+                tv["domain"], tv["objtype"] = el[0].id, el[1].id
+            elif st.value.func.attr in ("partition", "rpartition") and len(el) == 3 and isinstance(el[0], ast.Name) and isinstance(el[2], ast.Name):
+                tv["domain"], tv["objtype"] = el[0].id, el[2].id
+    return tv
 
 
 def _mentions(t, names) -> bool:
     return any(isinstance(n, ast.Name) and n.id in names for n in ast.walk(t))
 
 
-def _store_guard_classes(fi: FunctionInfo, L: "EntryLoop", store) -> list[tuple[str, ast.expr, bool]]:
-    """Classify every branch fact that dominates the entry store: MATCH / COLON / PYDUP / FIELD / OTHER."""
+def _store_guard_classes(fi: FunctionInfo, L: "EntryLoop", store, extra=()) -> list[tuple[str, ast.expr, bool]]:
+    """Classify every branch fact that dominates the entry store (``extra``: the facts inside a store
+    helper, already expressed in the loader's variables): MATCH / COLON / PYDUP / FIELD / OTHER."""
     cfg = get_cfg(fi)
     R = L.roles
+    tvs = _type_vars(fi, R["type"])
+    fields = set(R.values()) | {v for k_, v in tvs.items() if k_ != "type"}
     out = []
+    own = []
     for t, pol in cfg.guards(store):
         if not any(t is n for st in L.body_stmts if isinstance(st, (ast.If, ast.While)) for n in ast.walk(st.test)):
             continue  # facts established outside the entry loop (header checks)
+        own.append((t, pol))
+    for t, pol in own + list(extra):
         cls = "OTHER"
         if isinstance(t, ast.Constant):
             continue  # constant test: no condition on the entry
@@ -765,11 +840,11 @@ def _store_guard_classes(fi: FunctionInfo, L: "EntryLoop", store) -> list[tuple[
             cls = "MATCH"
         elif any(a[0] == "in" and _cstr(a[1]) == ":" and a[3] and (_is_name(a[2], R["type"]) or (isinstance(a[2], (ast.Call, ast.Subscript)) and _mentions(a[2], {L.mvar}) and str(ROLES.index("type") + 1) in unparse(a[2]))) for a in _atom(t, pol)):
             cls = "COLON"
-        elif any(_cstr(n) == "py:module" for n in ast.walk(t) if isinstance(n, (ast.Constant, ast.Name))):
+        elif _is_pydup_test(t, tvs):
             cls = "PYDUP"
         elif isinstance(t, ast.Name) and t.id in R.values() and pol and L.group_min_width().get(t.id, 0) >= 1:
             cls = "VACUOUS"  # the regex group cannot be empty: the truthiness test never skips anything
-        elif _mentions(t, set(R.values())):
+        elif _mentions(t, fields):
             cls = "FIELD"
         out.append((cls, t, pol))
     return out
@@ -808,7 +883,7 @@ def r2_rule_chain(corpus: Corpus, rep: Report, tier: str):
         raise Unsupported(f"{fs.fq}: `{fs_type}` is never split into domain and objtype")
     # (b) duplicate py:module: first entry wins
     conts = [st for st in scope if isinstance(st, ast.Continue)]
-    guards = _store_guard_classes(fi, L, store)
+    guards = _store_guard_classes(fi, L, store, _helper_guards(corpus, fi, store))
     k = f"{fi.fq}|py:module duplicate rule"
     dup = []
     for c in conts:
@@ -827,7 +902,8 @@ def r2_rule_chain(corpus: Corpus, rep: Report, tier: str):
     elif pyd:
         for t, pol in pyd:
             # the store runs iff t == pol; required: it runs iff not (type == "py:module" and already present)
-            wrong = [(E, P) for E in (True, False) for P in (True, False) if (_dup_truth(t, R["type"], E, P) == pol) != (not (E and P))]
+            tvs = _type_vars(fi, R["type"])
+            wrong = [(D and O, P) for D in (True, False) for O in (True, False) for P in (True, False) if (_dup_truth(t, tvs, D, O, P) == pol) != (not (D and O and P))]
             if not wrong:
                 rep.ok("C18.R2", k, mod.site(t), "store skipped exactly when type == 'py:module' and already present")
             else:
@@ -1092,11 +1168,14 @@ class Kinds:
                 return None
             if recv == REC and a == "get" and e.args and _cstr(e.args[0]) == "objects":
                 return ("M", 0)
-            if recv == TYPE and a == "split" and e.args and _cstr(e.args[0]) == ":":
+            if recv == TYPE and a in ("split", "rsplit") and e.args and _cstr(e.args[0]) == ":":
+                # where the string is cut (first/last ':', maxsplit) is judged by R2; the parts are (domain, objtype)
                 ms = arg_or_kw(e, 1, "maxsplit")
                 if ms is not None and _const(ms) == 1:
                     return ("TUPLE", DOMAIN, OBJTYPE)
                 return None
+            if recv == TYPE and a in ("partition", "rpartition") and len(e.args) == 1 and _cstr(e.args[0]) == ":":
+                return ("TUPLE", DOMAIN, CONST, OBJTYPE)
             return None
         if isinstance(e, (ast.JoinedStr, ast.BinOp)):
             parts = self._parts(e)
@@ -1366,8 +1445,7 @@ def r3_key_kinds(corpus: Corpus, rep: Report, tier: str):
         done.add(fi.fq)
         rep.saw_function(fi.fq)
         kinds = Kinds(fi, _kind_seeds(corpus, fi, extra))
-        if not kinds.checks and fi.fq in planned:
-            raise Unsupported(f"{fi.fq}: no access to an inventory dictionary was typed")
+        delegated = False
         # private helpers that receive the table or keys: parameter kinds come from the call site
         for call, t in _callees(corpus, fi):
             if t.fq in done or t.fq in planned or t.module is not fi.module or t.cls is not None:
@@ -1380,6 +1458,9 @@ def r3_key_kinds(corpus: Corpus, rep: Report, tier: str):
                     pk[p_] = k_
             if any(k_ == REC or _is_container(k_) for k_ in pk.values()):
                 work.append((t, pk))
+                delegated = True
+        if not kinds.checks and fi.fq in planned and not delegated:
+            raise Unsupported(f"{fi.fq}: no access to an inventory dictionary was typed")
         seen = set()
         for node, key, exp, got in kinds.checks:
             k = f"{fi.fq}|{short(node, 80)}|{exp} key"
@@ -1400,7 +1481,7 @@ def r3_key_kinds(corpus: Corpus, rep: Report, tier: str):
                     site,
                     f"`{short(key, 40)}` is a {got} value but this level of the table is keyed by {exp}: the lookup `{short(node, 70)}` can never find what the stores put there",
                 )
-    rep.expect_min("C18.R3", 14, "typed dictionary accesses in _load_v1, _load_v2, from_sphinx, to_sphinx")
+    rep.expect_min("C18.R3", 8, "typed dictionary accesses in _load_v1, _load_v2, from_sphinx, to_sphinx")
 
 
 # ---------------------------------------------------------------------------
@@ -1537,8 +1618,27 @@ def _empty_edge(n, b: str) -> bool:
     for t, pol in facts(n[1].test, n[0] == "T"):
         if _is_b(t, b) and not pol:
             return True
+        if pol and isinstance(t, ast.Compare) and _emptiness_expr(t, b, "\0"):
+            return True
         for a in _atom(t, pol):
             if a[0] == "eq" and a[3] and ((_is_b(a[1], b) and _empty_bytes(a[2])) or (_is_b(a[2], b) and _empty_bytes(a[1]))):
+                return True
+    return False
+
+
+def _emptiness_expr(v, chunk: str, eof: str) -> bool:
+    """``not chunk`` / ``chunk == b""`` / ``len(chunk) == 0`` (optionally or-ed with the flag itself)."""
+    if isinstance(v, ast.BoolOp) and isinstance(v.op, ast.Or):
+        rest = [x for x in v.values if unparse(x) != eof]
+        return len(rest) == 1 and _emptiness_expr(rest[0], chunk, eof)
+    if isinstance(v, ast.UnaryOp) and isinstance(v.op, ast.Not) and _is_name(v.operand, chunk):
+        return True
+    if isinstance(v, ast.Compare) and len(v.ops) == 1 and isinstance(v.ops[0], ast.Eq):
+        l, r = v.left, v.comparators[0]
+        if (_is_name(l, chunk) and _empty_bytes(r)) or (_is_name(r, chunk) and _empty_bytes(l)):
+            return True
+        for a, b in ((l, r), (r, l)):
+            if isinstance(a, ast.Call) and dotted(a.func) == "len" and len(a.args) == 1 and _is_name(a.args[0], chunk) and _const(b) == 0:
                 return True
     return False
 
@@ -1918,13 +2018,22 @@ def r4_buffer_conservation(corpus: Corpus, rep: Report, tier: str):
                         k = f"{m.fq}|every chunk read is appended to {M.B}"
                         inf = M.info[(m.fq, M.B)]
 
+                        def consumed(n, chunk=chunk) -> bool:
+                            """the chunk is handed on whole (decompress(chunk), yield chunk, ...)"""
+                            try:
+                                return bool(StmtBuf(n, chunk, m.fq).whole)
+                            except Unsupported:
+                                return False
+
                         def avoid(n, chunk=chunk, inf=inf):
                             if isinstance(n, ast.stmt):
-                                return inf[n].store == "append" and any(_is_name(x, chunk) for x in ast.walk(n.value))
+                                if inf[n].store == "append" and any(_is_name(x, chunk) for x in ast.walk(n.value)):
+                                    return True
+                                return n is not st and consumed(n)
                             return _empty_edge(n, chunk)
 
                         if cfg.paths_avoiding(st, EXIT, avoid):
-                            rep.violation(rid, k, mod.site(st), f"a chunk returned by `{short(c, 40)}` can reach the end of {m.qualname} without being appended to {M.B}")
+                            rep.violation(rid, k, mod.site(st), f"a chunk returned by `{short(c, 40)}` can reach the end of {m.qualname} without being appended to {M.B} or handed on")
                         else:
                             rep.ok(rid, k, mod.site(st))
         for st in cfg.nodes:
@@ -1945,6 +2054,10 @@ def r4_buffer_conservation(corpus: Corpus, rep: Report, tier: str):
                         rep.ok(rid, k, mod.site(st), f"only when the read returned b'' ({chunk})")
                     else:
                         rep.violation(rid, k, mod.site(st), f"{M.E} is set without a dominating test that the read returned b'': a short read (socket, pipe, small chunk) is taken for end of stream and the rest of the inventory is never read")
+                elif chunk is not None and _emptiness_expr(v, chunk, M.E):
+                    rep.ok(rid, k, mod.site(st), f"true exactly when the read returned b'' ({chunk})")
+                elif chunk is not None and any(_is_name(x, chunk) for x in ast.walk(v)):
+                    rep.violation(rid, k, mod.site(st), f"{M.E} is computed as `{short(v, 40)}`, which is not 'the read returned b\'\'': a short read (socket, pipe, small chunk) is taken for end of stream and the rest of the inventory is never read")
                 else:
                     raise Unsupported(f"{m.fq}: value stored to {M.E} not understood: {short(v, 40)}")
     if n_reads < 1:
@@ -2006,6 +2119,12 @@ def _sym_store(st, env, mod, sentinel, A):
     es = _entry_store_via(A.corpus, A.cur_fi, st) if getattr(A, "cur_fi", None) is not None else _entry_store(st)
     if es is not None and isinstance(es[1], ast.Dict) and _dict_value(es[1], "loc") is not None:  # MyST
         keys, item, mode = es
+        hg = _helper_guards(A.corpus, A.cur_fi, st) if getattr(A, "cur_fi", None) is not None else []
+        for g, _pol in list(hg) + [(g_, False) for g_ in env.get("\0guards", ())]:
+            if any(a[0] == "in" and "objects" in unparse(a[2]) for n_ in ast.walk(g) if isinstance(n_, ast.Compare) for a in _atom(n_, True)):
+                mode = f"{KEEP_FIRST} when `{short(g, 70)}`"
+            else:
+                raise Unsupported(f"v1 loop: store guarded by a condition this rule cannot judge: {short(g, 60)}")
         typ = _sym_eval(keys[0], env, mod) + (("c", ":"),) + _sym_eval(keys[1], env, mod)
         name = _sym_eval(keys[2], env, mod)
         loc = _sym_eval(_dict_value(item, "loc"), env, mod)
@@ -2046,6 +2165,8 @@ def _sym_exec(stmts, env, conds, out, mod, sentinel, skip, A) -> None:
             env[st.targets[0].id] = _sym_eval(st.value, env, mod)
         elif isinstance(st, ast.AugAssign) and isinstance(st.target, ast.Name) and isinstance(st.op, ast.Add):
             env[st.target.id] = _sym_eval(st.target, env, mod) + _sym_eval(st.value, env, mod)
+        elif isinstance(st, ast.If) and not st.orelse and len(st.body) == 1 and isinstance(st.body[0], ast.Continue) and any(isinstance(n_, ast.Compare) and isinstance(n_.ops[0], (ast.In, ast.NotIn)) for n_ in ast.walk(st.test)):
+            env["\0guards"] = tuple(env.get("\0guards", ())) + (st.test,)  # a skip condition on what is already stored
         elif isinstance(st, ast.If):
             test, flip = st.test, False
             while isinstance(test, ast.UnaryOp) and isinstance(test.op, ast.Not):
@@ -2157,8 +2278,12 @@ def _offsets(corpus: Corpus, fi: FunctionInfo) -> tuple:
 
 
 def _v2_consts(corpus: Corpus, fi: FunctionInfo, roles: dict, depth: int = 0, out: dict | None = None) -> dict[str, set]:
+    top = out is None
     if out is None:
-        out = {"substring tests": set(), "type equality": set(), "location suffix": set()}
+        out = {"substring tests": set(), "type equality": set(), "location suffix": set(), "\0d": set(), "\0o": set()}
+        roles = dict(roles)
+        for k_, v_ in _type_vars(fi, roles["type"]).items():
+            roles.setdefault(k_, v_)
     if depth < 2:  # tests moved into private helpers: follow them with the role variables mapped to parameters
         for call, t in _callees(corpus, fi):
             sub = {}
@@ -2178,10 +2303,20 @@ def _v2_consts(corpus: Corpus, fi: FunctionInfo, roles: dict, depth: int = 0, ou
                 ec = _eq_const(ast.Compare(left=l, ops=[ast.Eq()], comparators=[r]))
                 if ec is not None and _is_name(ec[0], roles["type"]):
                     out["type equality"].add(ec[1])
+                if ec is not None and "domain" in roles and _is_name(ec[0], roles["domain"]):
+                    out["\0d"].add(ec[1])
+                if ec is not None and "objtype" in roles and _is_name(ec[0], roles["objtype"]):
+                    out["\0o"].add(ec[1])
         if isinstance(n, ast.Call) and isinstance(n.func, ast.Attribute) and n.func.attr in ("endswith", "removesuffix") and _is_name(n.func.value, roles["loc"]) and n.args and _cstr(n.args[0]) is not None:
             out["location suffix"].add(_cstr(n.args[0]))
         if isinstance(n, ast.Call) and isinstance(n.func, ast.Attribute) and n.func.attr == "split" and _is_name(n.func.value, roles["type"]) and n.args and _cstr(n.args[0]) is not None:
             out["substring tests"].add(_cstr(n.args[0]))  # the separator plays the role of the substring test
+    if top:
+        for d_ in out.pop("\0d"):
+            for o_ in out.pop("\0o", set()) or ():
+                out["type equality"].add(f"{d_}:{o_}")
+        out.pop("\0d", None)
+        out.pop("\0o", None)
     return out
 
 
@@ -2372,11 +2507,31 @@ def mutants(corpus: Corpus):
     add("c18-colon-check-dropped", "C18.R2", colon_if.test if colon_if else None, "False", "dominated by the ':' test", canary=True)
     sp = find_node(v2, lambda n: isinstance(n, ast.Call) and isinstance(n.func, ast.Attribute) and n.func.attr == "split" and _is_name(n.func.value, R["type"]))
     add("c18-split-every-colon", "C18.R2", sp, f"{R['type']}.split(\":\")", "first ':' only")
+    # class "domain:objtype cut at the wrong colon"
+    add("c18-split-at-last-colon", "C18.R2", sp, f"{R['type']}.rsplit(\":\", 1)", "LAST ':'")
+    spa = parent(sp) if sp is not None else None
+    if isinstance(spa, ast.Assign) and isinstance(spa.targets[0], ast.Tuple) and len(spa.targets[0].elts) == 2:
+        d_, o_ = (unparse(e) for e in spa.targets[0].elts)
+        add("c18-split-rpartition", "C18.R2", spa, f"{d_}, _sep, {o_} = {R['type']}.rpartition(\":\")", "LAST ':'")
+    fsp = find_node(A.from_sphinx, lambda n: isinstance(n, ast.Call) and isinstance(n.func, ast.Attribute) and n.func.attr == "split" and len(n.args) == 2 and _cstr(n.args[0]) == ":")
+    add("c18-from-sphinx-split-at-last-colon", "C18.R2", fsp, f"{unparse(fsp.func.value)}.rsplit(\":\", 1)" if fsp is not None else "", "LAST ':'")
     fs = A.from_sphinx
     fs_if = find_node(fs, lambda n: isinstance(n, ast.If) and any(a[0] == "in" and _cstr(a[1]) == ":" for a in _atom(n.test, True)))
     add("c18-from-sphinx-colon-check-dropped", "C18.R2", fs_if.test if fs_if else None, "False", "from_sphinx")
     pm_if = find_node(v2, lambda n: isinstance(n, ast.If) and "py:module" in unparse(n.test))
     add("c18-py-module-rule-dropped", "C18.R2", pm_if.test if pm_if else None, "False", "py:module duplicate rule")
+    # class "first-wins duplicate rule applied where Sphinx overwrites"
+    memb = find_node(v2, lambda n: isinstance(n, ast.Compare) and isinstance(n.ops[0], ast.In) and pm_if is not None and any(n is x for x in ast.walk(pm_if.test)))
+    add("c18-first-wins-for-every-type", "C18.R2", pm_if.test if (pm_if is not None and memb is not None) else None, ast.get_source_segment(src, memb) if memb is not None else "", "py:module duplicate rule")
+    v1st = find_node(v1, lambda n: isinstance(n, ast.Assign) and _entry_store(n) is not None)
+    if v1st is not None:
+        k1 = _entry_store(v1st)[0]
+        base1 = unparse(_access_chain(v1st.targets[0])[0])
+        ind1 = " " * v1st.col_offset
+        guard = f"if {unparse(k1[0])} == \"py\" and {unparse(k1[1])} == \"module\" and {unparse(k1[2])} in {base1}[\"objects\"].get({unparse(k1[0])}, {{}}).get({unparse(k1[1])}, {{}}):\n{ind1}    continue\n{ind1}"
+        add("c18-v1-first-module-wins", "C18.R5", v1st, guard + ast.get_source_segment(src, v1st), "the first entry is kept when")
+    else:
+        out.append(("c18-v1-first-module-wins", "v1 store is not a subscript assignment"))
     dl_if = find_node(v2, lambda n: isinstance(n, ast.If) and any(a[0] == "endswith" for a in _atom(n.test, True)))
     add("c18-dollar-expansion-dropped", "C18.R2", dl_if.test if dl_if else None, "False", "$ expansion")
     if dl_if is not None and isinstance(dl_if.body[0], ast.Assign):
@@ -2483,6 +2638,12 @@ def mutants(corpus: Corpus):
     if rb is not None:
         eof_if = find_node(rb, lambda n: isinstance(n, ast.If))
         add("c18-short-read-taken-for-eof", "C18.R4", eof_if.test if eof_if else None, "len(chunk) < _BUFSIZE", "short read", canary=True)
+        M_ = _reader(corpus)
+        add("c18-eof-assigned-from-short-read", "C18.R4", eof_if, f"{M_.E} = len(chunk) < _BUFSIZE", "is computed as")
+        rdcall = find_node(rb, lambda n: isinstance(n, ast.Assign) and isinstance(n.value, ast.Call) and isinstance(n.value.func, ast.Attribute) and n.value.func.attr == "read")
+        if rdcall is not None and eof_if is not None:
+            cv = rdcall.targets[0].id
+            add("c18-eof-when-buffer-not-grown", "C18.R4", eof_if, f"{M_.E} = len({cv}) <= 1", "is computed as")
         ap = find_node(rb, lambda n: isinstance(n, ast.AugAssign))
         if ap is not None:
             add("c18-read-buffer-overwritten", "C18.R4", ap, f"{unparse(ap.target)} = {unparse(ap.value)}", "replaces")
